@@ -657,6 +657,7 @@ where
                 em.insert("holds_with_fresh_packer".into(), json!(state_dep));
                 em.insert("holds_with_zero_filled_scratch_and_fresh_state".into(), json!(clean));
                 em.insert("subset_empty".into(), json!(sub == 0));
+                em.insert("acc_radix_differs".into(), json!(packer && b_acc != s.b_in));
                 em.insert("subset_size".into(), json!(sub.count_ones()));
                 em.insert("log_gap".into(), json!(c.log_gap));
             }
